@@ -12,6 +12,7 @@ package sctp
 //     exactly, must-abort packets are answered with a protocol-violation ABORT.
 
 import (
+	"strings"
 	"context"
 	"encoding/binary"
 	"fmt"
@@ -560,6 +561,17 @@ func vfRunHostile(t *testing.T, spec *vfSpec, res *vfRes) {
 		}
 		a := sim.getAssoc(0)
 		r := vfNewRand(spec.Seed ^ 0xbad)
+		// from here on the structural invariant walker speaks for C03: an inconsistency it finds in the target after
+		// hostile input is state corrupted by that input
+		res.mu.Lock()
+		res.rewrite = func(prop, key string) (string, string) {
+			if strings.HasPrefix(key, "inv/") {
+				return "C03", "corrupt/" + key
+			}
+
+			return prop, key
+		}
+		res.mu.Unlock()
 		ti := vfTarget(a)
 		ti.genuine = map[string][]byte{}
 		for _, e := range sim.net.events() {
